@@ -401,6 +401,39 @@ func subFrames() mon.Sub {
 				c.Fail("frames/decompress-nonfinal", "DecompressFrame accepts a non-final frame", det)
 				return
 			}
+			// ... whatever the opcode and whether or not the compression bit is set (a continuation
+			// fragment of a compressed message carries no RSV1), through every helper variant
+			for _, op := range []ws.OpCode{ws.OpText, ws.OpBinary, ws.OpContinuation} {
+				for _, src := range []ws.Frame{f, cf} {
+					x := src
+					x.Header.Fin = false
+					x.Header.OpCode = op
+					x.Payload = append([]byte(nil), src.Payload...)
+					var hb bytes.Buffer
+					hl := wsflate.DefaultHelper
+					calls := map[string]func() error{
+						"DecompressFrame":              func() error { _, e := wsflate.DecompressFrame(x); return e },
+						"DecompressFrameBuffer":        func() error { _, e := wsflate.DecompressFrameBuffer(&hb, x); return e },
+						"Helper.DecompressFrame":       func() error { _, e := hl.DecompressFrame(x); return e },
+						"Helper.DecompressFrameBuffer": func() error { _, e := hl.DecompressFrameBuffer(&hb, x); return e },
+						"CompressFrame":                func() error { _, e := wsflate.CompressFrame(x); return e },
+						"CompressFrameBuffer":          func() error { _, e := wsflate.CompressFrameBuffer(&hb, x); return e },
+						"Helper.CompressFrame":         func() error { _, e := hl.CompressFrame(x); return e },
+						"Helper.CompressFrameBuffer":   func() error { _, e := hl.CompressFrameBuffer(&hb, x); return e },
+					}
+					r1, _, _ := ws.RsvBits(x.Header.Rsv)
+					for name, call := range calls {
+						if r1 && name[0] != 'D' && name[:8] != "Helper.D" {
+							continue // compressing an already-compressed frame is an error of its own
+						}
+						c.Count(1)
+						if call() == nil {
+							c.Fail("frames/nonfinal-accepted/"+name, fmt.Sprintf("%s accepts a non-final frame (opcode %d, rsv1=%v)", name, op, r1), det)
+							return
+						}
+					}
+				}
+			}
 			// an uncompressed frame passes through DecompressFrame unchanged
 			pf, err := wsflate.DecompressFrame(f)
 			if err != nil || pf.Header != h || !bytes.Equal(pf.Payload, msg) {
